@@ -19,7 +19,9 @@ RULE = ('row skeleton (exhaustive): renamed / same-name deprecation x same / dif
         'per row several random (new default, old default, overrides) from the expression generator over 4 roles, '
         'decided under all 16 role subsets; deprecated reason/since texts and the two warning-suppression knobs of the enforcer varied (they must not matter); in half of the cases the operator files are then rewritten (overrides added / removed / moved, main file deleted) and the SAME enforcer is re-checked against the table for the new files. Rows whose old-name override is textually '
         'the deprecated default are skipped (unconstrained by the statement). Non-trivial = a deprecated predecessor '
-        'actually influences the row (override under the old name, or OR-ing with a different old default); distinct = distinct configuration.')
+        'actually influences the row (override under the old name, or OR-ing with a different old default); distinct = distinct configuration. '
+        'Extra rows (renamed, differing defaults, flag on/off, main file / policy directory): the old-name override is a textually DIFFERENT spelling of the deprecated default (redundant parentheses, keyword case, whitespace, `@` for the empty string and back, commuted operands, double negation) - an arbitrary override by the statement, so it governs, also after a phase-2 rewrite. '
+        'In about a third of all cases a predecessor enforcer with its own files and (mostly) the opposite enforce_new_defaults is first built from the SAME RuleDefault / DeprecatedRule objects, loaded and asked once; the enforcer under test is then built from those objects and judged by the unchanged table, with the top-level shape of the new defaults forced to or / and / not / leaf in turn.')
 ASSUMPTIONS = ['role leaves evaluate as C01/C04 state',
                'an old-name override textually equal to the deprecated default is left unconstrained (statement)']
 LEVEL_TEXT = ('The table of the statement is finite in its skeleton and enumerated completely; the check strings are '
@@ -27,7 +29,10 @@ LEVEL_TEXT = ('The table of the statement is finite in its skeleton and enumerat
 LEVEL_NOTE = 'trusted: the reference implementation of the override table (20 lines) and the AST evaluator'
 PLAN = {'quick': dict(shards=4, wall=60), 'thorough': dict(shards=16, wall=400)}
 MIN = {'evaluations': 500, 'decisions': 10000, 'rows_old_override_governs': 50, 'rows_or_merge': 50,
-       'rows_new_override_governs': 50, 'rows_alias': 50, 'phase2_cases': 100, 'rows_old_name_still_registered': 50, 'rows_old_override_in_both_layers': 20}
+       'rows_new_override_governs': 50, 'rows_alias': 50, 'phase2_cases': 100, 'rows_old_name_still_registered': 50, 'rows_old_override_in_both_layers': 20,
+       'rows_old_override_lexical_variant': 60, 'phase2_old_override_lexical_variant': 10,
+       'rows_predecessor_enforcer': 150, 'rows_predecessor_merged_then_new_defaults_enforced': 20,
+       'predecessor_newdef_top_or': 30}
 ANCHORS = ['oslo_policy.policy:Enforcer._handle_deprecated_rule', 'oslo_policy.policy:Enforcer._record_file_rules',
            'oslo_policy.policy:Enforcer.load_rules', 'oslo_policy.policy:Enforcer.enforce']
 REQUIRED_ANCHORS = ['oslo_policy.policy:Enforcer.enforce', 'oslo_policy.policy:Enforcer.load_rules']
@@ -55,6 +60,71 @@ def skeleton():
             continue
         yield dict(renamed=renamed, samedef=samedef, flag=flag, new_ov=new_ov, old_ov=old_ov, loc_new=loc_new,
                    loc_old=loc_old, nshare=nshare)
+    # appended AFTER the original rows (their case numbers and random streams stay what they were): the old-name override
+    # is a lexical variant of the deprecated default - textually different, hence an arbitrary override that governs
+    for flag, new_ov, loc_new, loc_old, nshare in itertools.product((True, False), (False, True), ('main', 'dir'),
+                                                                    ('main', 'dir'), (1, 2, 3)):
+        if not new_ov and loc_new == 'dir':
+            continue
+        yield dict(renamed=True, samedef=False, flag=flag, new_ov=new_ov, old_ov='variant', loc_new=loc_new,
+                   loc_old=loc_old, nshare=nshare)
+
+
+GOVERNS = ('arbitrary', 'variant')        # kinds of old-name override that are "an override under the old, renamed name"
+VARIANT_KINDS = ('parens', 'wrap', 'case', 'ws', 'random', 'true-spelling') * 2 + ('commute', 'double-not')
+SHAPES = ('or', 'and', 'not', 'leaf')
+
+
+def _leaf(i):
+    return 'role:' + ROLES[i]
+
+
+def lexical_variant(rnd, ast, text):
+    """(kind, (ast', text')): another spelling of the expression `ast` whose text differs from `text`.  ast' has the
+    meaning of ast under the reference semantics (identical except for commuted operands / a double negation)."""
+    ast = expr_tuple(ast)
+    for _ in range(30):
+        kind = rnd.choice(VARIANT_KINDS)
+        a = ast
+        if kind == 'true-spelling':
+            if ast != ('const', True):
+                continue
+            cand = rnd.choice(['', '@', '(@)', ' @ ', '( @ )'])
+        elif kind == 'parens':
+            cand = expr.spell(expr.to_tokens(ast, _leaf, full=True))
+        elif kind == 'wrap':
+            if not text.strip():
+                continue
+            cand = rnd.choice(['(%s)', '( %s )', '((%s))']) % text
+        elif kind == 'case':
+            cand = expr.spell(expr.to_tokens(ast, _leaf), rnd, case=True)
+        elif kind == 'ws':
+            cand = expr.spell(expr.to_tokens(ast, _leaf), rnd, ws=True)
+        elif kind == 'random':
+            cand = expr.variants(ast, _leaf, rnd, 3)[2][1]
+        elif kind == 'commute':
+            if ast[0] not in ('and', 'or'):
+                continue
+            a = (ast[0], list(reversed(ast[1])))
+            cand = expr.spell(expr.to_tokens(a, _leaf))
+        else:
+            a = ('not', ('not', ast))
+            cand = expr.spell(expr.to_tokens(a, _leaf))
+        if cand != text:
+            return kind, (a, cand)
+    return 'true-spelling' if not text.strip() else 'wrap', (ast, '@' if not text.strip() else '(%s)' % text)
+
+
+def gen_shaped(rnd, shape):
+    """random expression whose TOP level is the given shape"""
+    sub = lambda: expr.random_ast(rnd, rnd.randint(0, 2), 4, p_const=0.1)
+    if shape == 'leaf':
+        ast = ('leaf', rnd.randrange(4))
+    elif shape == 'not':
+        ast = ('not', sub())
+    else:
+        ast = (shape, [sub() for _ in range(rnd.randint(2, 3))])
+    return ast, expr.spell(expr.to_tokens(ast, _leaf))
 
 
 def fill(rnd, row):
@@ -76,7 +146,7 @@ def fill(rnd, row):
         if row['old_ov'] == 'arbitrary' and rnd.random() < 0.5:
             case['old_override'] = case['old_registered_def']
     # the old-name override may be present in BOTH layers with different values: the later layer (policy.d) is the override
-    if row['renamed'] and row['old_ov'] == 'arbitrary' and rnd.random() < 0.25:
+    if row['renamed'] and row['old_ov'] in GOVERNS and rnd.random() < 0.25:
         case['old_override_main'] = gen_expr(rnd)
     # knobs that only silence warnings - they must not influence a decision
     case['suppress_default_change'] = rnd.random() < 0.3
@@ -86,6 +156,28 @@ def fill(rnd, row):
         case['phase2'] = dict(new_ov=rnd.random() < 0.4, old_ov=rnd.choice(['absent', 'absent', 'arbitrary', 'alias']) if row['renamed'] else 'absent',
                               loc_new=rnd.choice(['main', 'dir']), loc_old=rnd.choice(['main', 'dir']),
                               new_override=gen_expr(rnd), old_override=gen_expr(rnd), drop_main=rnd.random() < 0.2)
+    # ---- everything below is drawn LAST, so that the earlier draws of the original rows are what they always were ----
+    # a predecessor: another enforcer built earlier from the very same RuleDefault / DeprecatedRule objects, with its own
+    # files and (mostly) the opposite enforce_new_defaults; the table for the enforcer under test does not mention it
+    if rnd.random() < 0.3:
+        case['predecessor'] = dict(flag=(not row['flag']) if rnd.random() < 0.85 else row['flag'],
+                                   files=rnd.choice(['none', 'empty', 'empty', 'old-override', 'new-override']),
+                                   override=gen_expr(rnd), roles=rnd.choice(SUBSETS))
+        if rnd.random() < 0.8:
+            # force the top-level shape of the new defaults (or / and / not / leaf), keeping the row's same/different relation
+            shapes = [rnd.choice(SHAPES) for _ in range(n)]
+            case['newdefs'] = [gen_shaped(rnd, sh) for sh in shapes]
+            if row['samedef']:
+                case['olddef'] = case['newdefs'][0]
+    if row['old_ov'] == 'variant':
+        if rnd.random() < 0.15:
+            # a deprecated default that allows everybody: written as the empty string or as `@`
+            case['olddef'] = (('const', True), rnd.choice(['', '', '@']))
+        case['variant_kind'], case['old_override'] = lexical_variant(rnd, case['olddef'][0], case['olddef'][1])
+        if case.get('phase2') and rnd.random() < 0.4:
+            case['phase2']['old_ov'] = 'variant'
+            case['phase2']['variant_kind'], case['phase2']['old_override'] = lexical_variant(
+                rnd, case['olddef'][0], case['olddef'][1])
     return case
 
 
@@ -121,7 +213,7 @@ def check_case(ctx, case):
     main, dirf = {}, {}
     if new_override:
         (main if case['loc_new'] == 'main' else dirf)[newnames[0]] = new_override[1]
-    if renamed and case['old_ov'] == 'arbitrary':
+    if renamed and case['old_ov'] in GOVERNS:
         (main if case['loc_old'] == 'main' else dirf)[oldname] = old_override[1]
         if case.get('old_override_main'):
             # both layers define the old name: main says one thing, policy.d (applied later) says `old_override`
@@ -131,31 +223,79 @@ def check_case(ctx, case):
     if renamed and case['old_ov'] == 'alias':
         (main if case['loc_old'] == 'main' else dirf)[oldname] = 'rule:' + newnames[0]
     tree = files.Tree(dirs=('pd',))
+    tree0 = None
     try:
         if main or case['main_exists']:
             tree.write('policy.yaml', main, 'json')
         if dirf:
             tree.write('pd/x.yaml', dirf, 'yaml-lines')
         reason, since = REASONS[case['reason']]
-        enf = policy.Enforcer(tree.conf(enforce_new_defaults=case['flag']))
-        if case.get('suppress_default_change'):
-            enf.suppress_default_change_warnings = True
-        if case.get('suppress_deprecation'):
-            enf.suppress_deprecation_warnings = True
-        for i, nm in enumerate(newnames):
-            dep = policy.DeprecatedRule(oldname if renamed else nm, olddef[1], deprecated_reason=reason or None,
-                                        deprecated_since=since or None)
-            enf.register_default(policy.RuleDefault(nm, newdefs[i][1], deprecated_rule=dep))
+
+        def make_defaults():
+            # what the service owns: one RuleDefault (with its DeprecatedRule) per new policy, possibly the old name too
+            out = []
+            for i, nm in enumerate(newnames):
+                dep = policy.DeprecatedRule(oldname if renamed else nm, olddef[1], deprecated_reason=reason or None,
+                                            deprecated_since=since or None)
+                out.append(policy.RuleDefault(nm, newdefs[i][1], deprecated_rule=dep))
+            if renamed and case.get('old_registered_def'):
+                out.append(policy.RuleDefault(oldname, untuple(case['old_registered_def'])[1]))
+            return out
+
+        def build(conf, defaults):
+            e = policy.Enforcer(conf)
+            if case.get('suppress_default_change'):
+                e.suppress_default_change_warnings = True
+            if case.get('suppress_deprecation'):
+                e.suppress_deprecation_warnings = True
+            for d in defaults:
+                e.register_default(d)
+            return e
+
+        defaults = make_defaults()
+        pre = case.get('predecessor')
+        pre_enf = None
+        if pre:
+            # an earlier enforcer of the same process, built from the SAME objects, with its own files and flag; it loads
+            # and decides once.  The table for the enforcer under test knows nothing about it.
+            tree0 = files.Tree(dirs=('pd',))
+            pmain = {}
+            if pre['files'] == 'old-override' and renamed:
+                pmain[oldname] = untuple(pre['override'])[1]
+            elif pre['files'] == 'new-override':
+                pmain[newnames[0]] = untuple(pre['override'])[1]
+            if pre['files'] != 'none':
+                tree0.write('policy.yaml', pmain, 'json')
+            pre_enf = build(tree0.conf(enforce_new_defaults=pre['flag']), defaults)
+            pre_enf.load_rules()
+            for nm in newnames:
+                try:
+                    pre_enf.enforce(nm, {}, {'roles': list(pre['roles'])})
+                except Exception:
+                    pass                                   # the predecessor is history, not the subject
+            ctx.count('rows_predecessor_enforcer')
+            top = expr_tuple(newdefs[0][0])[0]
+            ctx.count('predecessor_newdef_top_' + ('leaf' if top in ('leaf', 'const') else top))
+            if (not pre['flag'] and case['flag'] and not pmain and any(olddef[1] != d[1] for d in newdefs)):
+                ctx.count('rows_predecessor_merged_then_new_defaults_enforced')
+        enf = build(tree.conf(enforce_new_defaults=case['flag']), defaults)
         if renamed and case.get('old_registered_def'):
-            enf.register_default(policy.RuleDefault(oldname, untuple(case['old_registered_def'])[1]))
             ctx.count('rows_old_name_still_registered')
+
+        def without_predecessor(nm, roles):
+            # diagnosis only (after a mismatch): the same decision from an enforcer built from freshly constructed objects
+            try:
+                return bool(build(tree.conf(enforce_new_defaults=case['flag']), make_defaults()).enforce(
+                    nm, {}, {'roles': list(roles)}))
+            except Exception as e:
+                return 'EXC:' + type(e).__name__
 
         # ---- reference: the statement's table -------------------------------
         def effective(i, truth):
             if i == 0 and new_override:
                 return expr.ev(new_override[0], truth)                       # new-name override governs
-            if renamed and case['old_ov'] == 'arbitrary':
-                return expr.ev(old_override[0], truth)                       # old-name override governs
+            if renamed and case['old_ov'] in GOVERNS:
+                return expr.ev(old_override[0], truth)                       # old-name override governs (any text other than the deprecated default's)
             if renamed and case['old_ov'] == 'alias' and i > 0:
                 return effective(0, truth)                                   # for the others it is just a rule: reference
             v = expr.ev(newdefs[i][0], truth)
@@ -168,6 +308,9 @@ def check_case(ctx, case):
             ctx.count('rows_new_override_governs')
         if renamed and case['old_ov'] == 'arbitrary' and (n > 1 or not new_override):
             ctx.count('rows_old_override_governs')
+        if renamed and case['old_ov'] == 'variant' and (n > 1 or not new_override):
+            ctx.count('rows_old_override_lexical_variant')
+            ctx.count('variant_kind_' + str(case.get('variant_kind')))
         if renamed and case['old_ov'] == 'alias':
             ctx.count('rows_alias')
         if not case['flag'] and any(olddef[1] != d[1] for d in newdefs):
@@ -182,12 +325,17 @@ def check_case(ctx, case):
                     got = 'EXC:' + type(e).__name__
                 ctx.count('decisions')
                 if got != want:
+                    clean = without_predecessor(nm, roles) if pre else None
                     if isinstance(got, str):
                         key = 'enforce-raises'
+                    elif pre and clean == want:
+                        key = 'decision-depends-on-earlier-enforcer-sharing-the-defaults'
                     elif i == 0 and new_override:
                         key = 'new-name-override-not-governing'
                     elif renamed and case['old_ov'] == 'arbitrary':
                         key = 'old-name-override-not-governing'
+                    elif renamed and case['old_ov'] == 'variant':
+                        key = 'old-name-override-spelled-differently-from-deprecated-default-not-governing'
                     elif renamed and case['old_ov'] == 'alias':
                         key = 'alias-override-not-ignored'
                     elif case['flag']:
@@ -197,6 +345,7 @@ def check_case(ctx, case):
                     ctx.violation(key, case, {'policy': nm, 'roles': roles, 'expected': want, 'observed': got,
                                               'new_defaults': [d[1] for d in newdefs], 'old_default': olddef[1],
                                               'files': {'main': main, 'dir': dirf}, 'enforce_new_defaults': case['flag'],
+                                              'predecessor': dict(pre, same_decision_without_predecessor=clean) if pre else None,
                                               'warning_knobs': [case.get('suppress_default_change'), case.get('suppress_deprecation')]})
                     return
         # ---- phase 2: the operator edits the files; the same enforcer must now follow the table for the NEW files ----
@@ -204,14 +353,16 @@ def check_case(ctx, case):
         if ph:
             ctx.count('phase2_cases')
             p_new = untuple(ph['new_override']) if ph['new_ov'] else None
-            p_old = untuple(ph['old_override']) if ph['old_ov'] == 'arbitrary' else None
+            p_old = untuple(ph['old_override']) if ph['old_ov'] in GOVERNS else None
             if p_old and p_old[1] == olddef[1]:
                 return
             main2, dir2 = {}, {}
             if p_new:
                 (main2 if ph['loc_new'] == 'main' else dir2)[newnames[0]] = p_new[1]
-            if renamed and ph['old_ov'] == 'arbitrary':
+            if renamed and ph['old_ov'] in GOVERNS:
                 (main2 if ph['loc_old'] == 'main' else dir2)[oldname] = p_old[1]
+            if renamed and ph['old_ov'] == 'variant':
+                ctx.count('phase2_old_override_lexical_variant')
             if renamed and ph['old_ov'] == 'alias':
                 (main2 if ph['loc_old'] == 'main' else dir2)[oldname] = 'rule:' + newnames[0]
             if ph['drop_main'] and not main2:
@@ -226,7 +377,7 @@ def check_case(ctx, case):
             def effective2(i, truth):
                 if i == 0 and p_new:
                     return expr.ev(p_new[0], truth)
-                if renamed and ph['old_ov'] == 'arbitrary':
+                if renamed and ph['old_ov'] in GOVERNS:
                     return expr.ev(p_old[0], truth)
                 if renamed and ph['old_ov'] == 'alias' and i > 0:
                     return effective2(0, truth)
@@ -251,16 +402,19 @@ def check_case(ctx, case):
                         return
     finally:
         tree.cleanup()
+        if tree0 is not None:
+            tree0.cleanup()
 
 
 def run(ctx):
     rows = list(skeleton())
     per = PER_ROW[ctx.tier]
-    idx = 0
     done = True
-    for row in rows:
-        for j in range(per):
-            idx += 1
+    # case numbers are those of the row-major enumeration (row r, filling j -> r * per + j + 1), but the walk is
+    # filling-major: a run cut short by its time budget loses the last fillings of EVERY row, not all fillings of the last rows
+    for j in range(per):
+        for r, row in enumerate(rows):
+            idx = r * per + j + 1
             if not ctx.mine(idx):
                 continue
             if ctx.expired():
